@@ -2,6 +2,7 @@ package rules
 
 import (
 	"go/token"
+	"go/types"
 	"strings"
 
 	"golang.org/x/tools/go/ssa"
@@ -281,25 +282,33 @@ func c09StopGuard(e *Env) {
 	r.Rule("C09.stop-guard", "DCS", "stop only when running; restart unconditional", 2)
 	_, ss := e.EnumOf(schedRel, "Status")
 	running := ConstVal(ss, "StatusRunning")
-	if fn := e.Fn(dschedRel, "(*jobImpl).Stop"); fn != nil {
+	if fn := e.daemonJobMethod("Stop"); fn != nil {
 		n := 0
 		for _, ci := range ir.CallsIn(fn, func(c *ssa.CallCommon) bool { return c.IsInvoke() && c.Method.Name() == "Stop" }) {
 			n++
-			ok := false
-			for _, l := range e.DCS(ci) {
-				if l.Kind == "cmp" && l.Op == token.EQL && e.IsFieldRead(l.X, nil, "Status") {
-					if k, isC := ir.ConstInt(l.Y); isC && k == running {
-						ok = true
+			ok, nWays := true, 0
+			e.ways(e.DCS(ci), func(lits []ir.NLit) {
+				nWays++
+				found := false
+				for _, l := range lits {
+					if l.Kind == "cmp" && l.Op == token.EQL && e.IsFieldRead(l.X, nil, "Status") {
+						if k, isC := ir.ConstInt(l.Y); isC && k == running {
+							found = true
+						}
 					}
 				}
-			}
+				if !found {
+					ok = false
+				}
+			})
+			ok = ok && nWays > 0
 			r.Check(ok, "jobImpl.Stop: Client.Stop only under latest status == running", e.InstrPos(ci), "a stop schedule acts on a DAG that is not running", e.FactsStr("dominating conditions: ", e.DCS(ci)))
 		}
 		if n == 0 {
 			r.Bad("jobImpl.Stop: Client.Stop only under latest status == running", e.Pos(fn.Pos()), "the stop schedule never stops the DAG")
 		}
 	}
-	if fn := e.Fn(dschedRel, "(*jobImpl).Restart"); fn != nil {
+	if fn := e.daemonJobMethod("Restart"); fn != nil {
 		ok := false
 		for _, ci := range ir.CallsIn(fn, func(c *ssa.CallCommon) bool { return c.IsInvoke() && c.Method.Name() == "Restart" }) {
 			if len(e.DCS(ci)) == 0 {
@@ -410,7 +419,9 @@ func c09BadFile(e *Env) {
 	r := e.R
 	r.Rule("C09.bad-file-isolation", "DCS+MPT", "a file that fails to load does not stop the others; the watcher's lock is released", 3)
 	sp := e.P.Pkg(dschedRel)
-	inPkg := func(f *ssa.Function) bool { return f != nil && sp != nil && f.Blocks != nil && rootFn(f).Package() == sp }
+	inPkg := func(f *ssa.Function) bool {
+		return f != nil && sp != nil && f.Blocks != nil && rootFn(f).Package() == sp
+	}
 	isMetaLoad := func(f *ssa.Function) bool {
 		return len(ir.CallsIn(f, func(c *ssa.CallCommon) bool { return strings.HasSuffix(ir.CalleeName(c), "internal/dag.LoadMetadata") })) > 0
 	}
@@ -543,7 +554,7 @@ func c09BadFile(e *Env) {
 func c09StartGuard(e *Env) {
 	r := e.R
 	r.Rule("C09.start-guard", "DCS", "daemon start guard", 2)
-	fn := e.Fn(dschedRel, "(*jobImpl).Start")
+	fn := e.daemonJobMethod("Start")
 	if fn == nil {
 		return
 	}
@@ -553,21 +564,27 @@ func c09StartGuard(e *Env) {
 	for _, ci := range ir.CallsIn(fn, func(c *ssa.CallCommon) bool { return c.IsInvoke() && c.Method.Name() == "Start" }) {
 		n++
 		lits := e.DCS(ci)
-		okRun, okErr := false, false
-		for _, l := range lits {
-			if l.Kind == "cmp" && l.Op == token.NEQ && e.IsFieldRead(l.X, nil, "Status") {
-				if k, isC := ir.ConstInt(l.Y); isC && k == running {
-					okRun = true
+		okRun, okErr, nWays := true, true, 0
+		e.ways(lits, func(alt []ir.NLit) {
+			nWays++
+			run, er := false, false
+			for _, l := range alt {
+				if l.Kind == "cmp" && l.Op == token.NEQ && e.IsFieldRead(l.X, nil, "Status") {
+					if k, isC := ir.ConstInt(l.Y); isC && k == running {
+						run = true
+					}
 				}
-			}
-			if l.Kind == "cmp" && l.Op == token.EQL && ir.IsNilConst(l.Y) {
-				if ex, isE := ir.Resolve(l.X).(*ssa.Extract); isE && ex.Index == 1 {
-					if c, isC := ex.Tuple.(*ssa.Call); isC && c.Call.IsInvoke() && c.Call.Method.Name() == "GetLatestStatus" {
-						okErr = true
+				if l.Kind == "cmp" && l.Op == token.EQL && ir.IsNilConst(l.Y) {
+					if ex, isE := ir.Resolve(l.X).(*ssa.Extract); isE && ex.Index == 1 {
+						if c, isC := ex.Tuple.(*ssa.Call); isC && c.Call.IsInvoke() && c.Call.Method.Name() == "GetLatestStatus" {
+							er = true
+						}
 					}
 				}
 			}
-		}
+			okRun, okErr = okRun && run, okErr && er
+		})
+		okRun = okRun && nWays > 0
 		r.Check(okRun && okErr, "jobImpl.Start: Client.Start only under latest status != running", e.InstrPos(ci),
 			"the daemon starts a DAG that is (or may be) already running", e.FactsStr("dominating conditions: ", lits))
 		// the same-minute guard: on the parse-success edge, not (last.After(Next) || Next.Equal(last))
@@ -576,45 +593,46 @@ func c09StartGuard(e *Env) {
 		okMinute := ok && len(dnf) > 0
 		for _, cj := range dnf {
 			for _, conj := range ff.ExpandDNFRegion(fn.Blocks[0], []ir.Lit(cj)) {
-				lits := ir.NormalizeAll(conj)
-				parsedOK := false
-				for _, l := range lits {
-					if l.Kind == "cmp" && l.Op == token.EQL && ir.IsNilConst(l.Y) {
-						if ex, isE := ir.Resolve(l.X).(*ssa.Extract); isE && ex.Index == 1 {
-							if c, isC := ex.Tuple.(*ssa.Call); isC && strings.HasSuffix(ir.CalleeName(&c.Call), "util.ParseTime") {
-								parsedOK = true
+				e.ways(ir.NormalizeAll(conj), func(lits []ir.NLit) {
+					parsedOK := false
+					for _, l := range lits {
+						if l.Kind == "cmp" && l.Op == token.EQL && ir.IsNilConst(l.Y) {
+							if ex, isE := ir.Resolve(l.X).(*ssa.Extract); isE && ex.Index == 1 {
+								if c, isC := ex.Tuple.(*ssa.Call); isC && strings.HasSuffix(ir.CalleeName(&c.Call), "util.ParseTime") {
+									parsedOK = true
+								}
 							}
 						}
 					}
-				}
-				if !parsedOK {
-					continue // no previous start time: nothing to compare
-				}
-				notAfter, notEqual := false, false
-				for _, l := range lits {
-					if l.Kind == "val" && !l.Pol {
-						if c, isC := ir.Resolve(l.V).(*ssa.Call); isC {
-							if ir.IsCallTo(&c.Call, "(time.Time).After") && e.IsFieldRead(c.Call.Args[1], nil, "Next") && truncatedToMinute(c.Call.Args[0]) {
-								notAfter = true
+					if !parsedOK {
+						return // no previous start time: nothing to compare
+					}
+					notAfter, notEqual := false, false
+					for _, l := range lits {
+						if l.Kind == "val" && !l.Pol {
+							if c, isC := ir.Resolve(l.V).(*ssa.Call); isC {
+								if ir.IsCallTo(&c.Call, "(time.Time).After") && e.IsFieldRead(c.Call.Args[1], nil, "Next") && truncatedToMinute(c.Call.Args[0]) {
+									notAfter = true
+								}
+								if ir.IsCallTo(&c.Call, "(time.Time).Before") && e.IsFieldRead(c.Call.Args[0], nil, "Next") && truncatedToMinute(c.Call.Args[1]) {
+									notAfter = true
+								}
+								if ir.IsCallTo(&c.Call, "(time.Time).Equal") && (e.IsFieldRead(c.Call.Args[0], nil, "Next") && truncatedToMinute(c.Call.Args[1]) || e.IsFieldRead(c.Call.Args[1], nil, "Next") && truncatedToMinute(c.Call.Args[0])) {
+									notEqual = true
+								}
 							}
-							if ir.IsCallTo(&c.Call, "(time.Time).Before") && e.IsFieldRead(c.Call.Args[0], nil, "Next") && truncatedToMinute(c.Call.Args[1]) {
-								notAfter = true
-							}
-							if ir.IsCallTo(&c.Call, "(time.Time).Equal") && (e.IsFieldRead(c.Call.Args[0], nil, "Next") && truncatedToMinute(c.Call.Args[1]) || e.IsFieldRead(c.Call.Args[1], nil, "Next") && truncatedToMinute(c.Call.Args[0])) {
-								notEqual = true
+						}
+						if l.Kind == "val" && l.Pol {
+							// positive form: last.Before(Next)
+							if c, isC := ir.Resolve(l.V).(*ssa.Call); isC && ir.IsCallTo(&c.Call, "(time.Time).Before") && e.IsFieldRead(c.Call.Args[1], nil, "Next") && truncatedToMinute(c.Call.Args[0]) {
+								notAfter, notEqual = true, true
 							}
 						}
 					}
-					if l.Kind == "val" && l.Pol {
-						// positive form: last.Before(Next)
-						if c, isC := ir.Resolve(l.V).(*ssa.Call); isC && ir.IsCallTo(&c.Call, "(time.Time).Before") && e.IsFieldRead(c.Call.Args[1], nil, "Next") && truncatedToMinute(c.Call.Args[0]) {
-							notAfter, notEqual = true, true
-						}
+					if !notAfter || !notEqual {
+						okMinute = false
 					}
-				}
-				if !notAfter || !notEqual {
-					okMinute = false
-				}
+				})
 			}
 		}
 		r.Check(okMinute, "jobImpl.Start: Client.Start only when the last start (truncated to the minute) is before the scheduled minute", e.InstrPos(ci),
@@ -633,4 +651,46 @@ func truncatedToMinute(v ssa.Value) bool {
 	}
 	k, isC := ir.ConstInt(c.Call.Args[1])
 	return isC && k == 60_000_000_000
+}
+
+// daemonJobMethod resolves a method of the daemon's job type by role: the named
+// type of the daemon package whose pointer has the methods Start, Stop and
+// Restart (the `job` interface the entries invoke), whatever the type is called.
+func (e *Env) daemonJobMethod(name string) *ssa.Function {
+	sp := e.P.Pkg(dschedRel)
+	if sp == nil {
+		return nil
+	}
+	var found *ssa.Function
+	n := 0
+	for _, mem := range sp.Members {
+		t, ok := mem.(*ssa.Type)
+		if !ok {
+			continue
+		}
+		nt, ok := t.Type().(*types.Named)
+		if !ok {
+			continue
+		}
+		if _, isI := nt.Underlying().(*types.Interface); isI {
+			continue
+		}
+		ms := types.NewMethodSet(types.NewPointer(nt))
+		if ms.Lookup(sp.Pkg, "Start") == nil || ms.Lookup(sp.Pkg, "Stop") == nil || ms.Lookup(sp.Pkg, "Restart") == nil {
+			continue
+		}
+		sel := ms.Lookup(sp.Pkg, name)
+		if sel == nil {
+			continue
+		}
+		if f := sp.Prog.MethodValue(sel); f != nil && f.Blocks != nil {
+			found = f
+			n++
+		}
+	}
+	if n != 1 {
+		e.R.Unknown("the daemon's job type (methods Start / Stop / Restart): "+name, dschedRel, sprintf("%d candidate types", n))
+		return nil
+	}
+	return found
 }
